@@ -373,10 +373,11 @@ def gen_l2(rng, params):
         phases.append({
             'workers': rng.randint(1, 16),
             'sched_seed': rng.randrange(1 << 30),
-            'crash': {'at_event': rng.randint(1, 6),
-                      'torn': {'cls': rng.choice(
-                          list(simdisk.TORN_CLASSES) + ['none', 'complete']),
-                          'u': rng.random()}}
+            'crash': ({'at_event': rng.randint(1, 6),
+                       'torn': {'cls': rng.choice(
+                           list(simdisk.TORN_CLASSES) + ['none', 'complete']),
+                           'u': rng.random()}} if rng.random() < 0.6 else
+                      {'at_step': rng.choice([1, 3, 6, 10, 20, 40, 80])})
         })
     phases.append({'workers': rng.randint(1, 16),
                    'sched_seed': rng.randrange(1 << 30)})
